@@ -804,15 +804,25 @@ pub fn faults<B: Backend>(rec: &mut Recorder, st: &mut Stats, cfg: &Cfg) {
         let _ = kk.seal(&pk);
     });
     let _ = (&mut scratch, &mut s2);
-    for partial in [false, true] {
+    // glitches (one failing draw, cleanly or after a partial fill) and outages (that draw and every later one fail)
+    for (partial, lasting) in [(false, false), (true, false), (false, true)] {
+        let arm = || {
+            if lasting {
+                rng::outage_next()
+            }
+        };
         for i in 0..n_pie {
+            arm();
             pie_wrap::<B, Local>(rec, st, k, with, Some((i, partial)));
+            arm();
             pie_wrap::<B, Secret>(rec, st, &w.secrets[0].secret, with, Some((i, partial)));
         }
         for i in 0..n_pw {
+            arm();
             pw_wrap::<B, Local>(rec, st, k, pass, Some(cost), Some((i, partial)));
         }
         for i in 0..n_seal {
+            arm();
             pke_seal::<B>(rec, st, k, &w.recipients[0].public, Some((i, partial)));
         }
     }
@@ -895,6 +905,8 @@ pub fn fresh<B: Backend>(rec: &mut Recorder, st: &mut Stats, cfg: &Cfg) {
             for i in 0..nd {
                 keygen::<B>(rec, kind, Some((i, false)));
                 keygen::<B>(rec, kind, Some((i, true)));
+                rng::outage_next();
+                keygen::<B>(rec, kind, Some((i, false)));
             }
         }
     }
